@@ -107,7 +107,8 @@ ISqrtTol(cap, kk, ee) == ISqrtAbs + RelPart(ee, ISqrtRel(kk)[1], ISqrtRel(kk)[2]
 \* truncates the denominator (one unit of 2^-cap), which moves the numerator by ee / 2^cap: kk * ee / 2^cap.
 GoldAbs == 2
 GoldTol(cap, kk, ee) == GoldAbs + RelPart(ee, NewtonRel(kk - 1)[1], NewtonRel(kk - 1)[2]) + (ee \div (2 ^ cap) + 1) * kk
-\* the authors' tests (cap 10/20/30, 5 iterations): (|y - e| * 100) / e <= 1 in integer arithmetic
+\* the authors' tests (cap 10/20/30, 5 iterations, large quotients): (|y - e| * 100) / e <= 1 in integer arithmetic;
+\* applied where one unit is below that resolution (e >= 256)
 GoldAuthors(ee, yy) == (AbsV(yy - ee) * 100) \div ee <= 1
 
 \* piecewise-linear sigmoid / GeLU: documented maximal absolute error of the interpolation in 1e-4 (doc comments
@@ -256,28 +257,44 @@ WShr(aa, nn) ==
         LET l0 == IF ii + qq <= WL THEN aa[ii + qq] ELSE 0
             l1 == IF ii + qq + 1 <= WL THEN aa[ii + qq + 1] ELSE 0
         IN (l0 \div Pow2Tab[rr + 1]) + (l1 % Pow2Tab[rr + 1]) * (256 \div Pow2Tab[rr + 1]) ]
-\* |yy - floor(2^cap / dd)| <= tt  etc. with yy, dd, nn limb sequences and tt a small natural number
+\* product with a natural number below 2^22 (one pass with carry), below 2^31 (two halves), with an integer
+RECURSIVE WMulSmallFrom(_, _, _, _)
+WMulSmallFrom(aa, nn, ii, cy) ==
+    IF ii > WL THEN << >>
+    ELSE LET ss == aa[ii] * nn + cy IN << ss % 256 >> \o WMulSmallFrom(aa, nn, ii + 1, ss \div 256)
+WMulSmall(aa, nn) == WMulSmallFrom(aa, nn, 1, 0)
+\* aa * 2^nn  (mod 2^128)
+WShl(aa, nn) ==
+    LET qq == nn \div 8  rr == nn % 8 IN
+    [ii \in 1..WL |->
+        LET l0 == IF ii - qq >= 1 THEN aa[ii - qq] ELSE 0
+            l1 == IF ii - qq - 1 >= 1 THEN aa[ii - qq - 1] ELSE 0
+        IN ((l0 * Pow2Tab[rr + 1]) % 256) + (l1 \div (256 \div Pow2Tab[rr + 1])) ]
+WMulNat(aa, nn) == IF nn < 65536 THEN WMulSmall(aa, nn)
+                   ELSE WAdd(WMulSmall(aa, nn % 65536), WShl(WMulSmall(aa, nn \div 65536), 16))
+WMulInt(aa, vv) == IF vv < 0 THEN LNeg(WMulNat(aa, 0 - vv)) ELSE WMulNat(aa, vv)
+\* |yy - floor(2^cap / dd)| <= tt  etc.: yy (and nn's product) limb sequences, dd / nn integers below 2^31, tt small
 RecipWithinW(cap, dd, yy, tt) ==
-    /\ WLeq(WMul(WSub(yy, WNat(tt)), dd), WPow2(cap))
-    /\ WLess(WPow2(cap), WMul(WAdd(yy, WNat(tt + 1)), dd))
-ISqrtWithinW(cap, dd, yy, tt) ==
-    LET lw == WSub(yy, WNat(tt))  up == WAdd(yy, WNat(tt + 1)) IN
-    /\ WLeq(lw, WNat(0)) \/ WLeq(WMul(WMul(lw, lw), dd), WPow2(2 * cap))
-    /\ WLess(WNat(0), up) /\ WLess(WPow2(2 * cap), WMul(WMul(up, up), dd))
+    /\ WLeq(WMulNat(WSub(yy, WNat(tt)), dd), WPow2(cap))
+    /\ WLess(WPow2(cap), WMulNat(WAdd(yy, WNat(tt + 1)), dd))
+\* the result of the inverse square root is below 2^22: (y -+ t)^2 * d as d * (y -+ t) * (y -+ t)
+ISqrtWithinW(cap, dd, yv, tt) ==
+    /\ yv - tt <= 0 \/ WLeq(WMulNat(WMulNat(WNat(dd), yv - tt), yv - tt), WPow2(2 * cap))
+    /\ yv + tt + 1 > 0 /\ WLess(WPow2(2 * cap), WMulNat(WMulNat(WNat(dd), yv + tt + 1), yv + tt + 1))
 \* Goldschmidt: tolerance tw (limbs)
 DivWithinW(cap, nn, dd, yy, tw) ==
-    /\ WLeq(WMul(WSub(yy, tw), dd), WMul(nn, WPow2(cap)))
-    /\ WLess(WMul(nn, WPow2(cap)), WMul(WAdd(WAdd(yy, tw), WNat(1)), dd))
+    /\ WLeq(WMulNat(WSub(yy, tw), dd), WShl(WNat(nn), cap))
+    /\ WLess(WShl(WNat(nn), cap), WMulNat(WAdd(WAdd(yy, tw), WNat(1)), dd))
 \* converged Goldschmidt (2^(kk-1) > 2 cap): GoldAbs + (yy / 2^cap + 2) * kk  (yy stands for the quotient)
-GoldTolW(cap, kk, yy) == WAdd(WNat(GoldAbs), WMul(WAdd(WShr(yy, cap), WNat(2)), WNat(kk)))
+GoldTolW(cap, kk, yy) == WAdd(WNat(GoldAbs), WMulNat(WAdd(WShr(yy, cap), WNat(2)), kk))
 \* exponent bracket [lo, lo + 1], tolerance ExpRound + (lo + 1) / 20:
 \*   yy >= lo - T  and  yy <= lo + 1 + T   with  a <= floor(E / 20)  <=>  20 a <= E
 ExpCloseW(yy, lo) ==
     LET ee == WAdd(lo, WNat(1))
         below == WSub(WSub(lo, yy), WNat(ExpRound))
         above == WSub(WSub(yy, ee), WNat(ExpRound))
-    IN /\ WLeq(WMul(below, WNat(20)), ee)
-       /\ WLeq(WMul(above, WNat(20)), ee)
+    IN /\ WNeg(below) \/ WLeq(WMulSmall(below, 20), ee)
+       /\ WNeg(above) \/ WLeq(WMulSmall(above, 20), ee)
 \* a (small) signed integer as limbs, and back (saturating at 2^24 for the statistics)
 WInt(vv) == IF vv < 0 THEN LNeg(WNat(0 - vv)) ELSE WNat(vv)
 WSmallAbs(aa) == LET mm == IF WNeg(aa) THEN LNeg(aa) ELSE aa IN
@@ -288,13 +305,13 @@ BrDevW(yy, lo) == IF WLess(yy, lo) THEN WSmallAbs(WSub(lo, yy))
                   ELSE IF WLess(WAdd(lo, WNat(1)), yy) THEN WSmallAbs(WSub(yy, WAdd(lo, WNat(1)))) ELSE 0
 \* compiled piecewise-linear result explained by segment ss (tables al, be as limbs, xv an integer)
 PwlExplainedW(yc, xv, ss, al, be, pp) ==
-    LET lv == WAdd(WMul(al[ss], WInt(xv)), be[ss]) IN
-    /\ WLeq(WMul(WSub(yc, WNat(1)), WPow2(pp)), lv)
-    /\ WLess(lv, WMul(WAdd(yc, WNat(1)), WPow2(pp)))
+    LET lv == WAdd(WMulInt(al[ss], xv), be[ss]) IN
+    /\ WLeq(WShl(WSub(yc, WNat(1)), pp), lv)
+    /\ WLess(lv, WShl(WAdd(yc, WNat(1)), pp))
 \* plaintext result: the line value rounded toward zero
 PwlPlainW(yy, xv, ss, al, be, pp) ==
-    LET lv == WAdd(WMul(al[ss], WInt(xv)), be[ss])
-        lo == WMul(yy, WPow2(pp)) IN
+    LET lv == WAdd(WMulInt(al[ss], xv), be[ss])
+        lo == WShl(yy, pp) IN
     IF WNeg(lv) THEN WLeq(lv, lo) /\ WLess(WSub(lo, WPow2(pp)), lv)
     ELSE WLeq(lo, lv) /\ WLess(lv, WAdd(lo, WPow2(pp)))
 \* |aa - bb| <= tw
